@@ -13,6 +13,7 @@ import (
 	"context"
 	"encoding/json"
 	"fmt"
+	"net/http"
 	"net/url"
 	"os"
 	"reflect"
@@ -386,6 +387,7 @@ func (h *c20HookCfg) usable() bool {
 
 var c20Runs sync.Map // real controller name -> *c20Run
 var c20WorkerPanics int64
+var c20CallCount int64
 var c20Once sync.Once
 
 func c20Install() {
@@ -396,6 +398,11 @@ func c20Install() {
 			atomic.AddInt64(&c20WorkerPanics, 1)
 		})
 		utilruntime.ErrorHandlers = nil
+		if os.Getenv("VERIF_C20_DEBUG") != "" {
+			utilruntime.ErrorHandlers = []utilruntime.ErrorHandler{func(_ context.Context, err error, msg string, kv ...interface{}) {
+				fmt.Fprintf(os.Stderr, "handled error: %v %s\n", err, msg)
+			}}
+		}
 		hookTransport.Set(c20Answer)
 	})
 }
@@ -437,7 +444,7 @@ func c20ParseURL(raw string) (real string, id int, kind, related string, ok bool
 	return
 }
 
-func c20Answer(rawURL string, hdr map[string][]string, req map[string]interface{}) (int, map[string]string, []byte, bool) {
+func c20Answer(rawURL string, hdr http.Header, req map[string]interface{}) (int, map[string]string, []byte, bool) {
 	real, id, kind, related, ok := c20ParseURL(rawURL)
 	if !ok {
 		return 500, nil, []byte("unknown hook"), false
@@ -453,10 +460,9 @@ func c20Answer(rawURL string, hdr map[string][]string, req map[string]interface{
 	}
 	run.mu.Lock()
 	run.calls[fmt.Sprintf("%s/%d/%s", short, id, kind)]++
-	hookDropped := len(hookTransport.Calls()) > 4096
 	run.mu.Unlock()
-	if hookDropped {
-		hookTransport.ResetCalls()
+	if atomic.AddInt64(&c20CallCount, 1)%256 == 0 {
+		hookTransport.ResetCalls() // nobody reads the transport's own record
 	}
 	switch kind {
 	case "customize":
@@ -616,8 +622,8 @@ type c20Obs struct {
 
 type c20StepRec struct {
 	Event   c20Event
-	Related []c20RelatedRec // related-resource requests of syncs observed after the event
-	Obs     c20Obs          // after the event and, if any, before the related requests
+	Obs     c20Obs         // after the event (and before the related request, if one follows)
+	Related *c20RelatedRec // the related-resource request the first sync of a freshly started instance made
 }
 
 type c20RelatedRec struct {
@@ -684,30 +690,37 @@ func c20RunCase(slot int, c *c20Case) (recs []c20StepRec) {
 	for _, s := range []string{"a", "b"} {
 		c20Runs.Store(c20RealName(s, slot), run)
 	}
+	t0 := time.Now()
+	var tRec, tWait time.Duration
 	defer func() {
+		t1 := time.Now()
 		run.openGate()
 		run.host.stopAll()
+		t2 := time.Now()
 		run.w.close()
+		if os.Getenv("VERIF_C20_DEBUG") != "" {
+			fmt.Fprintf(os.Stderr, "case %d events: total %v reconcile %v wait %v stopAll %v close %v\n", len(c.Events), time.Since(t0), tRec, tWait, t2.Sub(t1), time.Since(t2))
+		}
 	}()
 	run.seedCluster()
-	specs := map[string]*c20Spec{} // short name -> spec of the stored object
 	for _, ev := range c.Events {
 		real := c20RealName(ev.Name, slot)
 		switch ev.Op {
 		case "apply":
 			run.host.setFail(real, false)
 			run.host.apply(real, ev.Name, ev.Spec, ev.Crd, ev.Touch)
-			specs[ev.Name] = ev.Spec
 		case "delete":
 			run.host.setFail(real, false)
 			run.host.remove(real)
-			delete(specs, ev.Name)
 		case "geterr":
 			run.host.setFail(real, true)
 		}
 		wp0 := atomic.LoadInt64(&c20WorkerPanics)
+		incBefore := run.incarn[ev.Name]
+		// a freshly started instance cannot ask for related resources before the gate opens
 		run.closeGate()
 		obs := c20Obs{}
+		tr0 := time.Now()
 		func() {
 			defer func() {
 				if p := recover(); p != nil {
@@ -721,37 +734,38 @@ func c20RunCase(slot int, c *c20Case) (recs []c20StepRec) {
 				obs.Outcome = "ok"
 			}
 		}()
+		tRec += time.Since(tr0)
 		obs.Insts = run.instsObs()
 		obs.Refs = c20RefCounts(run.host.factory())
+		tw0 := time.Now()
+		defer func() { tWait += time.Since(tw0) }()
 		// now let the hosted workers run and watch what they do
 		run.resetCalls()
 		run.w.srv.ResetLog()
 		run.openGate()
 		run.poke()
-		type want struct {
-			key       string
-			customize string
-		}
-		var wants []want
-		cur := run.host.instances()
+		var wants []string
+		var fresh *c20RelatedRec
 		for _, short := range []string{"a", "b"} {
-			info, ok := cur[c20RealName(short, slot)]
+			e, ok := obs.Insts[short]
 			if !ok {
 				continue
 			}
-			sp := c20SpecOf(c, short, info.specID)
+			sp := c20SpecOf(c, short, e[0])
 			if sp == nil || !sp.Sync.usable() || !c20ParentPresent(sp) {
 				continue
 			}
-			w := want{key: fmt.Sprintf("%s/%d", short, info.specID)}
-			wants = append(wants, w)
+			wants = append(wants, fmt.Sprintf("%s/%d", short, e[0]))
+			if short == ev.Name && e[1] != incBefore && sp.Customize.usable() {
+				fresh = &c20RelatedRec{Name: short, Resource: sp.Customize.Related}
+			}
 		}
 		deadline := time.Now().Add(4 * time.Second)
 		for {
 			done := true
 			act := run.activity()
-			for _, w := range wants {
-				if act[w.key][0] == 0 || act[w.key][1] == 0 {
+			for _, k := range wants {
+				if act[k][0] == 0 || act[k][1] == 0 {
 					done = false
 				}
 			}
@@ -760,45 +774,25 @@ func c20RunCase(slot int, c *c20Case) (recs []c20StepRec) {
 			}
 			time.Sleep(2 * time.Millisecond)
 		}
+		if os.Getenv("VERIF_C20_DEBUG") != "" && time.Now().After(deadline.Add(-3500*time.Millisecond)) {
+			fmt.Fprintf(os.Stderr, "slow step: %s %s wants=%v act=%v spec=%+v\n", ev.Name, ev.Abs, wants, run.activity(), ev.Spec)
+		}
 		time.Sleep(c20Settle)
-		rec := c20StepRec{Event: ev}
 		final := obs
 		final.Refs = c20RefCounts(run.host.factory())
 		final.Active = run.activity()
 		final.WPanics = int(atomic.LoadInt64(&c20WorkerPanics) - wp0)
-		// related-resource requests the syncs of the running instances made
-		calls := run.callsSnapshot()
-		var rels []c20RelatedRec
-		for _, short := range []string{"a", "b"} {
-			info, ok := cur[c20RealName(short, slot)]
-			if !ok {
-				continue
-			}
-			sp := c20SpecOf(c, short, info.specID)
-			if sp == nil || !sp.Customize.usable() {
-				continue
-			}
-			if calls[fmt.Sprintf("%s/%d/customize", short, info.specID)] > 0 || run.everCustomized(short, info.specID) {
-				run.markCustomized(short, info.specID)
-				rels = append(rels, c20RelatedRec{Name: short, Resource: sp.Customize.Related})
-			}
-		}
-		if len(rels) == 0 {
+		rec := c20StepRec{Event: ev}
+		if fresh == nil {
 			rec.Obs = final
 		} else {
-			// the counts right after Reconcile returned belong to the event itself,
-			// the final ones to the last related request
+			// the counts taken when Reconcile returned belong to the event, the final ones to the related request
 			obs.Active = final.Active
 			obs.WPanics = final.WPanics
 			rec.Obs = obs
-			for i := range rels {
-				rels[i].Obs = final
-				if i < len(rels)-1 {
-					// intermediate point not observed: filled in by the emitter from the model-free sum
-					rels[i].Obs.Refs = nil
-				}
-			}
-			rec.Related = rels
+			fresh.Obs = final
+			fresh.Obs.Outcome = "ok"
+			rec.Related = fresh
 		}
 		recs = append(recs, rec)
 	}
@@ -806,13 +800,6 @@ func c20RunCase(slot int, c *c20Case) (recs []c20StepRec) {
 }
 
 var c20Settle = 30 * time.Millisecond
-
-var c20CustomMu sync.Mutex
-
-func (r *c20Run) everCustomized(short string, id int) bool {
-	return false
-}
-func (r *c20Run) markCustomized(short string, id int) {}
 
 func c20SpecOf(c *c20Case, short string, id int) *c20Spec {
 	for i := range c.Events {
@@ -833,3 +820,684 @@ func c20ParentPresent(s *c20Spec) bool {
 	}
 	return false
 }
+
+// ---- Coq terms ----
+
+func c20ResourceKey(r c20Rule) string { return r.Resource + "." + r.APIVersion }
+
+func c20Known(r c20Rule) bool { return resByResource(r.APIVersion, r.Resource) != nil }
+
+func c20CoqRule(r c20Rule) string {
+	return fmt.Sprintf("(mkRule %s %s %s %s)", vh.MustCoqString(c20ResourceKey(r)), vh.CoqBool(c20Known(r)),
+		vh.CoqBool(r.Strategy != "" && r.Strategy != "OnDelete"), vh.CoqBool(!r.BadSelector))
+}
+
+func c20CoqRules(rs []c20Rule) string {
+	parts := make([]string, len(rs))
+	for i, r := range rs {
+		parts[i] = c20CoqRule(r)
+	}
+	return "[" + strings.Join(parts, "; ") + "]"
+}
+
+func c20CoqHook(h *c20HookCfg) string {
+	if h == nil {
+		return "HookAbsent"
+	}
+	if h.NoWebhook {
+		return "HookNoWebhook"
+	}
+	svc := "None"
+	if h.Service != nil {
+		svc = fmt.Sprintf("(Some (mkSvc %s %s %s %s))", vh.CoqBool(h.Service.Name), vh.CoqBool(h.Service.Namespace), vh.CoqBool(h.Service.Port), vh.CoqBool(h.Service.Protocol))
+	}
+	tmo := map[string]string{"": "TmoUnset", "pos": "TmoPositive", "neg": "TmoNonPositive", "zero": "TmoNonPositive"}[h.Timeout]
+	etag := "EtagUnset"
+	switch h.Etag {
+	case "nil-enabled":
+		etag = "EtagEnabledUnset"
+	case "off":
+		etag = "EtagOff"
+	case "on":
+		etag = fmt.Sprintf("(EtagOn %s %s)", vh.CoqBool(h.CacheTimeout), vh.CoqBool(h.CacheCleanup))
+	}
+	return fmt.Sprintf("(HookWebhook (mkWh %s %s %s %s %s))", vh.CoqBool(h.URL), svc, vh.CoqBool(h.Path), tmo, etag)
+}
+
+// the model's spec id also separates hook details the classes do not carry
+func c20CoqSpec(s *c20Spec) string {
+	hooks := "None"
+	if !s.NoHooks {
+		hooks = fmt.Sprintf("(Some (mkHooks %s %s %s))", c20CoqHook(s.Sync), c20CoqHook(s.Finalize), c20CoqHook(s.Customize))
+	}
+	return fmt.Sprintf("(mkSpec %s %s %s %s)", vh.CoqZ(int64(s.ID)), c20CoqRules(s.Parents), c20CoqRules(s.Children), hooks)
+}
+
+func c20CoqEvent(flavor string, e c20Event) string {
+	n := vh.MustCoqString(e.Name)
+	switch e.Op {
+	case "delete":
+		return fmt.Sprintf("(Reconcile %s LNotFound)", n)
+	case "geterr":
+		return fmt.Sprintf("(Reconcile %s LError)", n)
+	}
+	crd := "CrdOk"
+	if flavor == "Composite" {
+		if _, err := schema.ParseGroupVersion(e.Spec.Parents[0].APIVersion); err != nil {
+			crd = "GvUnparsable"
+		} else if e.Crd == "missing" {
+			crd = "CrdMissing"
+		} else if e.Crd == "nostatus" {
+			crd = "CrdNoStatus"
+		}
+	}
+	return fmt.Sprintf("(Reconcile %s (LFound %s %s))", n, c20CoqSpec(e.Spec), crd)
+}
+
+func c20CoqObs(o c20Obs) string {
+	out := map[string]string{"ok": "ROk", "error": "RErr", "panic": "RPanic"}[o.Outcome]
+	names := []string{}
+	for n := range o.Insts {
+		names = append(names, n)
+	}
+	sort.Strings(names)
+	insts := []string{}
+	for _, n := range names {
+		insts = append(insts, fmt.Sprintf("(%s, (%s, %s))", vh.MustCoqString(n), vh.CoqZ(int64(o.Insts[n][0])), vh.CoqZ(int64(o.Insts[n][1]))))
+	}
+	keys := []string{}
+	for k := range o.Refs {
+		keys = append(keys, k)
+	}
+	sort.Strings(keys)
+	refs := []string{}
+	for _, k := range keys {
+		refs = append(refs, fmt.Sprintf("(%s, %s)", vh.MustCoqString(k), vh.CoqZ(int64(o.Refs[k]))))
+	}
+	akeys := []string{}
+	for k := range o.Active {
+		akeys = append(akeys, k)
+	}
+	sort.Strings(akeys)
+	act := []string{}
+	for _, k := range akeys {
+		parts := strings.SplitN(k, "/", 2)
+		id, _ := strconv.Atoi(parts[1])
+		act = append(act, fmt.Sprintf("(%s, (%s, (%s, %s)))", vh.MustCoqString(parts[0]), vh.CoqZ(int64(id)), vh.CoqZ(int64(o.Active[k][0])), vh.CoqZ(int64(o.Active[k][1]))))
+	}
+	return fmt.Sprintf("(mkObs %s [%s] [%s] [%s] %s)", out, strings.Join(insts, "; "), strings.Join(refs, "; "), strings.Join(act, "; "), vh.CoqZ(int64(o.WPanics)))
+}
+
+func c20CoqCase(c *c20Case, recs []c20StepRec) string {
+	steps := []string{}
+	for _, r := range recs {
+		steps = append(steps, fmt.Sprintf("(%s, %s)", c20CoqEvent(c.Flavor, r.Event), c20CoqObs(r.Obs)))
+		if r.Related != nil {
+			rule := c20Rule{APIVersion: "v1", Resource: r.Related.Resource}
+			steps = append(steps, fmt.Sprintf("(Related %s %s, %s)", vh.MustCoqString(r.Related.Name), c20CoqRule(rule), c20CoqObs(r.Related.Obs)))
+		}
+	}
+	return fmt.Sprintf("(mkC20 %s [%s])", c.Flavor, strings.Join(steps, ";\n  "))
+}
+
+// signature: the projected course of a case (what makes two cases distinct)
+func c20Signature(c *c20Case, recs []c20StepRec) string {
+	parts := []string{}
+	for _, r := range recs {
+		kind := ""
+		if r.Event.Spec != nil {
+			kind = r.Event.Spec.Kind
+		}
+		names := []string{}
+		for n, e := range r.Obs.Insts {
+			names = append(names, fmt.Sprintf("%s=%d.%d", n, e[0], e[1]))
+		}
+		sort.Strings(names)
+		parts = append(parts, fmt.Sprintf("%s:%s:%s:%s:%s>%s[%s]", r.Event.Name, r.Event.Abs, r.Event.Op, kind, r.Event.Crd, r.Obs.Outcome, strings.Join(names, ",")))
+	}
+	return strings.Join(parts, " ")
+}
+
+// ---- generators ----
+
+var c20Things = c20Rule{APIVersion: "ctl.example.com/v1", Resource: "things"}
+var c20ClusterThings = c20Rule{APIVersion: "ctl.example.com/v1", Resource: "clusterthings"}
+var c20Pods = c20Rule{APIVersion: "v1", Resource: "pods"}
+var c20Widgets = c20Rule{APIVersion: "apps.example.com/v1", Resource: "widgets"}
+var c20Namespaces = c20Rule{APIVersion: "v1", Resource: "namespaces"}
+
+type c20Gen struct {
+	rng    *vh.Rng
+	nextID int
+	touch  int
+}
+
+func (g *c20Gen) validHook(kind string) *c20HookCfg {
+	h := &c20HookCfg{}
+	switch g.rng.Intn(4) {
+	case 0:
+		h.Service = &c20Svc{Name: true, Namespace: true, Port: g.rng.Bool(), Protocol: g.rng.Bool()}
+		h.Path = true
+	case 1:
+		// url wins over an unusable service block
+		h.URL = true
+		h.Service = &c20Svc{Name: g.rng.Bool(), Namespace: g.rng.Bool()}
+		h.Path = g.rng.Bool()
+	default:
+		h.URL = true
+	}
+	h.Timeout = g.rng.Pick([]string{"", "", "pos", "neg", "zero"})
+	h.Etag = g.rng.Pick([]string{"", "", "nil-enabled", "off", "on", "on"})
+	if h.Etag != "" {
+		h.CacheTimeout = g.rng.Bool()
+		h.CacheCleanup = g.rng.Bool()
+	}
+	return h
+}
+
+func (g *c20Gen) children() []c20Rule {
+	pool := []c20Rule{c20Pods, c20Widgets, c20Things, c20Namespaces}
+	var out []c20Rule
+	n := g.rng.Intn(4)
+	perm := []int{0, 1, 2, 3}
+	for i := 3; i > 0; i-- {
+		j := g.rng.Intn(i + 1)
+		perm[i], perm[j] = perm[j], perm[i]
+	}
+	for i := 0; i < n; i++ {
+		r := pool[perm[i]]
+		r.Strategy = g.rng.Pick([]string{"", "", "OnDelete", "InPlace", "RollingRecreate"})
+		out = append(out, r)
+	}
+	return out
+}
+
+func (g *c20Gen) parents(flavor string) []c20Rule {
+	if flavor == "Composite" {
+		return []c20Rule{[]c20Rule{c20Things, c20ClusterThings}[g.rng.Intn(2)]}
+	}
+	switch g.rng.Intn(4) {
+	case 0:
+		return []c20Rule{c20Things, c20ClusterThings}
+	case 1:
+		return []c20Rule{c20ClusterThings}
+	default:
+		return []c20Rule{c20Things}
+	}
+}
+
+// valid: a specification the constructor accepts
+func (g *c20Gen) valid(flavor string) *c20Spec {
+	g.nextID++
+	s := &c20Spec{ID: g.nextID, Kind: "valid", Parents: g.parents(flavor), Children: g.children()}
+	s.Sync = g.validHook("sync")
+	if g.rng.Chance(1, 3) {
+		s.Finalize = g.validHook("finalize")
+		if g.rng.Chance(1, 4) {
+			s.Finalize = &c20HookCfg{NoWebhook: true}
+		}
+	}
+	if g.rng.Chance(1, 3) {
+		s.Customize = g.validHook("customize")
+		s.Customize.Related = g.rng.Pick([]string{"pods", "namespaces"})
+	}
+	if g.rng.Chance(1, 12) {
+		// the constructor also accepts a hooks block whose sync hook is missing or empty
+		s.Kind = "nosync"
+		s.Customize = nil
+		if g.rng.Bool() {
+			s.Sync = nil
+		} else {
+			s.Sync = &c20HookCfg{NoWebhook: true}
+		}
+	}
+	if g.rng.Chance(1, 14) && len(s.Children) > 0 {
+		// a rule named twice
+		s.Kind = "dup-rule"
+		s.Children = append(s.Children, s.Children[g.rng.Intn(len(s.Children))])
+	}
+	return s
+}
+
+var c20InvalidKinds = []string{"unknown-parent", "unknown-child", "unknown-child-strategy", "hooks-nil", "no-url-no-service",
+	"service-no-path", "service-no-name", "service-no-namespace", "bad-finalize", "bad-customize", "bad-selector", "dup-then-unknown"}
+
+// invalid: a specification the constructor must refuse
+func (g *c20Gen) invalid(flavor, kind string) *c20Spec {
+	s := g.valid(flavor)
+	for s.Kind != "valid" {
+		s = g.valid(flavor)
+	}
+	s.Kind = kind
+	bad := func() *c20HookCfg {
+		h := &c20HookCfg{Timeout: g.rng.Pick([]string{"", "neg"}), Etag: g.rng.Pick([]string{"", "on"})}
+		switch g.rng.Intn(4) {
+		case 0:
+		case 1:
+			h.Service = &c20Svc{Name: true, Namespace: true}
+		case 2:
+			h.Service = &c20Svc{Namespace: true}
+			h.Path = true
+		default:
+			h.Service = &c20Svc{Name: true}
+			h.Path = true
+		}
+		return h
+	}
+	unknownChild := c20Rule{APIVersion: "v1", Resource: "doohickeys"}
+	switch kind {
+	case "unknown-parent":
+		if flavor == "Composite" || g.rng.Bool() {
+			s.Parents[0] = c20Rule{APIVersion: "ctl.example.com/v1", Resource: "gizmos"}
+		} else {
+			s.Parents = append(s.Parents, c20Rule{APIVersion: "ctl.example.com/v1", Resource: "gizmos"})
+		}
+	case "unknown-child":
+		pos := g.rng.Intn(len(s.Children) + 1)
+		s.Children = append(s.Children[:pos:pos], append([]c20Rule{unknownChild}, s.Children[pos:]...)...)
+	case "unknown-child-strategy":
+		unknownChild.Strategy = "InPlace"
+		s.Children = append(s.Children, unknownChild)
+	case "hooks-nil":
+		s.NoHooks = true
+		s.Sync, s.Finalize, s.Customize = nil, nil, nil
+	case "no-url-no-service":
+		s.Sync = &c20HookCfg{Path: g.rng.Bool(), Timeout: g.rng.Pick([]string{"", "neg"})}
+	case "service-no-path":
+		s.Sync = &c20HookCfg{Service: &c20Svc{Name: true, Namespace: true, Port: true}}
+	case "service-no-name":
+		s.Sync = &c20HookCfg{Service: &c20Svc{Namespace: true}, Path: true}
+	case "service-no-namespace":
+		s.Sync = &c20HookCfg{Service: &c20Svc{Name: true, Protocol: true}, Path: true, Etag: "on"}
+	case "bad-finalize":
+		s.Finalize = bad()
+	case "bad-customize":
+		s.Customize = bad()
+	case "bad-selector":
+		s.Parents[g.rng.Intn(len(s.Parents))].BadSelector = true
+	case "dup-then-unknown":
+		s.Children = []c20Rule{c20Pods, c20Pods, unknownChild}
+	}
+	return s
+}
+
+// concretise turns abstract letters (per name) into events.
+//   V apply a new startable spec     I apply a new unstartable spec   N no-op update (metadata only)
+//   D delete                         E the read of the object fails
+//   C apply a new startable spec while the parent CRD is missing / has no status subresource (composite)
+//   K no-op update while the CRD is missing / has no status subresource (composite)
+//   G apply a new spec whose parent apiVersion does not parse (composite)
+func (g *c20Gen) concretise(flavor, family string, letters []string, names []string) *c20Case {
+	c := &c20Case{Flavor: flavor, Family: family}
+	cur := map[string]*c20Spec{}
+	feat := map[string]bool{}
+	for i, l := range letters {
+		n := names[i]
+		g.touch++
+		ev := c20Event{Name: n, Abs: l, Crd: "ok", Touch: g.touch}
+		if flavor != "Composite" {
+			ev.Crd = ""
+			switch l {
+			case "C", "G":
+				l = "V"
+			case "K":
+				l = "N"
+			}
+		}
+		if (l == "N" || l == "K") && cur[n] == nil {
+			l = "V"
+		}
+		switch l {
+		case "V", "C":
+			ev.Op, ev.Spec = "apply", g.valid(flavor)
+		case "I":
+			ev.Op, ev.Spec = "apply", g.invalid(flavor, c20InvalidKinds[g.rng.Intn(len(c20InvalidKinds))])
+		case "G":
+			ev.Op, ev.Spec = "apply", g.valid(flavor)
+			ev.Spec.Kind = "bad-gv"
+			ev.Spec.Parents[0].APIVersion = "ctl.example.com/v1/x"
+		case "N", "K":
+			ev.Op, ev.Spec = "apply", cur[n]
+		case "D":
+			ev.Op = "delete"
+		case "E":
+			ev.Op = "geterr"
+		}
+		if l == "C" || l == "K" {
+			ev.Crd = c20BadCrds[g.rng.Intn(len(c20BadCrds))]
+			feat["crd-"+ev.Crd] = true
+		}
+		if ev.Spec != nil {
+			cur[n] = ev.Spec
+			if ev.Spec.Kind != "valid" {
+				feat[ev.Spec.Kind] = true
+			}
+			if len(ev.Spec.Children) > 1 {
+				seen := map[string]bool{}
+				for _, k := range ev.Spec.Children {
+					if seen[c20ResourceKey(k)] {
+						feat["dup-rule"] = true
+					}
+					seen[c20ResourceKey(k)] = true
+				}
+			}
+		}
+		if ev.Op == "delete" {
+			delete(cur, n)
+		}
+		c.Events = append(c.Events, ev)
+	}
+	for f := range feat {
+		c.Features = append(c.Features, f)
+	}
+	sort.Strings(c.Features)
+	return c
+}
+
+// all letter sequences of length 1..maxLen over the alphabet
+func c20AllSequences(alphabet []string, maxLen int) [][]string {
+	var out [][]string
+	var rec func(prefix []string)
+	rec = func(prefix []string) {
+		if len(prefix) > 0 {
+			out = append(out, append([]string(nil), prefix...))
+		}
+		if len(prefix) == maxLen {
+			return
+		}
+		for _, a := range alphabet {
+			rec(append(prefix, a))
+		}
+	}
+	rec(nil)
+	return out
+}
+
+func c20Corpus(flavor string, rng *vh.Rng) []*c20Case {
+	var out []*c20Case
+	mk := func(family string, letters string, names string) *c20Gen {
+		return nil
+	}
+	_ = mk
+	add := func(family string, letters, names []string, fix func(c *c20Case, g *c20Gen)) {
+		sub, _ := rng.Fork()
+		g := &c20Gen{rng: sub}
+		c := g.concretise(flavor, family, letters, names)
+		if fix != nil {
+			fix(c, g)
+		}
+		out = append(out, c)
+	}
+	a := func(n int) []string {
+		l := make([]string, n)
+		for i := range l {
+			l[i] = "a"
+		}
+		return l
+	}
+	add("corpus-lifecycle", []string{"V", "N", "V", "D"}, a(4), nil)
+	add("corpus-two-names", []string{"V", "V", "N", "D", "V", "D"}, []string{"a", "b", "a", "a", "b", "b"}, nil)
+	// every way a specification can be unstartable, from nothing and over a running instance
+	for _, k := range c20InvalidKinds {
+		kind := k
+		add("corpus-invalid-"+kind, []string{"I", "V", "I", "D"}, a(4), func(c *c20Case, g *c20Gen) {
+			c.Events[0].Spec = g.invalid(flavor, kind)
+			c.Events[2].Spec = g.invalid(flavor, kind)
+			c.Features = []string{kind}
+			if kind == "dup-then-unknown" {
+				c.Features = append(c.Features, "dup-rule")
+			}
+		})
+	}
+	// every optional webhook field set and unset
+	for _, etag := range []string{"", "nil-enabled", "off", "on"} {
+		for _, ct := range []bool{false, true} {
+			for _, cc := range []bool{false, true} {
+				if etag == "" && (ct || cc) {
+					continue
+				}
+				e, t, cl := etag, ct, cc
+				add("corpus-webhook-fields", []string{"V", "V", "D"}, a(3), func(c *c20Case, g *c20Gen) {
+					for i, tmo := range []string{"neg", "pos"} {
+						s := c.Events[i].Spec
+						s.Kind, s.Children, s.Customize = "valid", []c20Rule{c20Pods}, nil
+						s.Sync = &c20HookCfg{URL: i == 0, Timeout: tmo, Etag: e, CacheTimeout: t, CacheCleanup: cl}
+						if i == 1 {
+							s.Sync.Service = &c20Svc{Name: true, Namespace: true, Port: t, Protocol: cl}
+							s.Sync.Path = true
+						}
+						s.Finalize = &c20HookCfg{URL: true, Etag: e, CacheTimeout: cl, CacheCleanup: t}
+					}
+					c.Features = nil
+				})
+			}
+		}
+	}
+	add("corpus-get-error", []string{"V", "E", "N", "E", "D"}, a(5), nil)
+	add("corpus-related", []string{"V", "V", "N", "V", "D", "D"}, []string{"a", "b", "a", "a", "a", "b"}, func(c *c20Case, g *c20Gen) {
+		for i, rel := range map[int]string{0: "pods", 1: "pods", 3: "namespaces"} {
+			s := c.Events[i].Spec
+			s.Kind = "valid"
+			s.Sync = &c20HookCfg{URL: true}
+			s.Customize = &c20HookCfg{URL: true, Related: rel}
+			s.Children = []c20Rule{c20Pods}
+		}
+		c.Events[2].Spec = c.Events[0].Spec
+		c.Features = nil
+	})
+	add("corpus-dup-rule", []string{"V", "D"}, a(2), func(c *c20Case, g *c20Gen) {
+		s := c.Events[0].Spec
+		s.Kind, s.Children, s.Customize = "dup-rule", []c20Rule{c20Pods, c20Pods}, nil
+		s.Sync = &c20HookCfg{URL: true}
+		c.Features = []string{"dup-rule"}
+	})
+	add("corpus-nosync", []string{"V", "N", "V", "D"}, a(4), func(c *c20Case, g *c20Gen) {
+		s := c.Events[0].Spec
+		s.Kind, s.Sync, s.Customize = "nosync", nil, nil
+		c.Events[1].Spec = s
+		c.Features = []string{"nosync"}
+	})
+	if flavor == "Composite" {
+		for _, crd := range c20BadCrds {
+			k := crd
+			add("corpus-crd-"+k, []string{"C", "V", "C", "K", "D"}, a(5), func(c *c20Case, g *c20Gen) {
+				for _, i := range []int{0, 2, 3} {
+					c.Events[i].Crd = k
+				}
+				for _, i := range []int{0, 1, 2} {
+					s := c.Events[i].Spec
+					s.Kind, s.Customize = "valid", nil
+					s.Sync = &c20HookCfg{URL: true}
+					s.Parents = []c20Rule{c20Things}
+				}
+				c.Events[3].Spec = c.Events[2].Spec
+				c.Features = []string{"crd-" + k}
+			})
+		}
+		add("corpus-bad-gv", []string{"G", "V", "G", "D"}, a(4), nil)
+	}
+	return out
+}
+
+var c20Alphabet = []string{"V", "I", "N", "D"}
+
+// c20Generate: the hand-written corpus, then (thorough) every sequence up to
+// length 5 over one name or (quick) a seeded sample of the sequences up to
+// length 4, then seeded two-name histories up to length 6 over the full alphabet.
+func c20Generate(flavor string, seed uint64, n int, tier string, adv bool) []*c20Case {
+	rng := vh.NewRng(seed ^ 0xc20c20)
+	out := c20Corpus(flavor, rng)
+	one := func(letters []string, family string) *c20Case {
+		sub, _ := rng.Fork()
+		g := &c20Gen{rng: sub}
+		names := make([]string, len(letters))
+		for i := range names {
+			names[i] = "a"
+		}
+		return g.concretise(flavor, family, letters, names)
+	}
+	if tier == "thorough" {
+		for _, l := range c20AllSequences(c20Alphabet, 5) {
+			out = append(out, one(l, "enum5"))
+		}
+	} else {
+		all := c20AllSequences(c20Alphabet, 4)
+		// seeded sample without replacement
+		for i := len(all) - 1; i > 0; i-- {
+			j := rng.Intn(i + 1)
+			all[i], all[j] = all[j], all[i]
+		}
+		k := n / 2
+		if k > len(all) {
+			k = len(all)
+		}
+		for _, l := range all[:k] {
+			out = append(out, one(l, "enum4-sample"))
+		}
+		n -= k
+	}
+	full := []string{"V", "V", "V", "I", "I", "N", "N", "D", "D", "E", "C", "K", "G"}
+	if adv {
+		full = []string{"V", "I", "I", "I", "N", "D", "E", "C", "C", "K", "K", "G"}
+	}
+	for i := 0; i < n; i++ {
+		sub, _ := rng.Fork()
+		g := &c20Gen{rng: sub}
+		ln := 2 + sub.Intn(5)
+		letters := make([]string, ln)
+		names := make([]string, ln)
+		for j := range letters {
+			letters[j] = full[sub.Intn(len(full))]
+			names[j] = []string{"a", "a", "b"}[sub.Intn(3)]
+		}
+		out = append(out, g.concretise(flavor, "two-names", letters, names))
+	}
+	return out
+}
+
+// ---- the test ----
+
+func c20Main(t *testing.T) {
+	env := vh.GetEnv()
+	if env.OutDir == "" {
+		t.Skip("VERIF_OUT not set")
+	}
+	header := "From MC Require Import Check.C20_check.\nOpen Scope string_scope.\n"
+	w, err := vh.NewCaseWriter(env.OutDir, c20Prop, header, 60)
+	if err != nil {
+		t.Fatal(err)
+	}
+	var cases []*c20Case
+	if env.Replay != "" {
+		data, err := os.ReadFile(env.Replay)
+		if err != nil {
+			t.Fatal(err)
+		}
+		var rf struct {
+			Case struct {
+				Case *c20Case `json:"case"`
+			} `json:"case"`
+		}
+		if err := json.Unmarshal(data, &rf); err != nil || rf.Case.Case == nil {
+			t.Fatalf("cannot read replay: %v", err)
+		}
+		cases = append(cases, rf.Case.Case)
+	} else {
+		n := env.N
+		if n == 0 {
+			n = 100
+		}
+		cases = c20Generate(c20Flavor, env.Seed, n, env.Tier, os.Getenv("VERIF_ADV") == "1")
+	}
+	// the histories run in parallel worlds (one slot = one pair of controller names)
+	slots := 12
+	if len(cases) < slots {
+		slots = len(cases)
+	}
+	if c20Sequential() {
+		slots = 1
+	}
+	results := make([][]c20StepRec, len(cases))
+	var next int64 = -1
+	var wg sync.WaitGroup
+	for s := 0; s < slots; s++ {
+		wg.Add(1)
+		go func(slot int) {
+			defer wg.Done()
+			for {
+				i := int(atomic.AddInt64(&next, 1))
+				if i >= len(cases) {
+					return
+				}
+				results[i] = c20RunCase(slot, cases[i])
+			}
+		}(s)
+	}
+	wg.Wait()
+	for i, c := range cases {
+		recs := results[i]
+		id := fmt.Sprintf("h%d", i)
+		outcomes := []string{}
+		for _, r := range recs {
+			outcomes = append(outcomes, r.Obs.Outcome)
+		}
+		replay := map[string]interface{}{"case": c, "features": c.Features, "outcomes": outcomes}
+		if err := w.Add(id, c20CoqCase(c, recs), "C20_check", replay); err != nil {
+			t.Fatal(err)
+		}
+		w.Count("family-" + strings.SplitN(c.Family, "-", 3)[0])
+		for _, f := range c.Features {
+			w.Count("feature-" + f)
+		}
+		starts, stops, restarts, noops, related := 0, 0, 0, 0, 0
+		prev := map[string][2]int{}
+		for _, r := range recs {
+			w.Count("letter-" + r.Event.Abs)
+			w.Count("outcome-" + r.Obs.Outcome)
+			if r.Event.Spec != nil {
+				w.Count("spec-" + r.Event.Spec.Kind)
+			}
+			if r.Related != nil {
+				related++
+			}
+			for _, n := range []string{"a", "b"} {
+				p, was := prev[n]
+				q, is := r.Obs.Insts[n]
+				switch {
+				case !was && is:
+					starts++
+				case was && !is:
+					stops++
+				case was && is && p[1] != q[1]:
+					restarts++
+				case was && is && n == r.Event.Name:
+					noops++
+				}
+			}
+			prev = r.Obs.Insts
+		}
+		w.Count(fmt.Sprintf("starts-%d", c20Cap(starts)))
+		w.Count(fmt.Sprintf("restarts-%d", c20Cap(restarts)))
+		if related > 0 {
+			w.Count("related-informer-opened")
+		}
+		// non-trivial: an instance was started and a later event stopped, restarted or kept it
+		if starts > 0 && stops+restarts+noops > 0 {
+			w.NonTrivial(c20Signature(c, recs))
+		}
+	}
+	if err := w.Close(nil); err != nil {
+		t.Fatal(err)
+	}
+}
+
+func c20Cap(n int) int {
+	if n > 3 {
+		return 3
+	}
+	return n
+}
+
+func c20Sequential() bool { return os.Getenv("VERIF_C20_SEQ") == "1" }
+
+func TestVerif_C20(t *testing.T) { c20Main(t) }
